@@ -42,11 +42,13 @@ Proof.
   unfold ig_if_needed. destruct (pick_ig _ _ _ _ _); [destruct (_ <=? _)%nat|]; cbn; auto.
 Qed.
 
-Lemma Back_create_sg rep c rp ts : Back c (create_sg rep c rp ts).
+Lemma Back_create_sg rep clip c rp ts : Back c (create_sg rep clip c rp ts).
 Proof.
   unfold create_sg. destruct (find_pol _ _) as [p|]; [|apply Back_refl]. destruct (existsb _ _); [apply Back_refl|].
-  destruct (same_ig_if_needed rep c rp (xp_igd p) ts (trunc ts (xp_sgd p) + xp_sgd p)) as (Es & Em).
-  destruct (ig_if_needed rep c rp (xp_igd p) ts (trunc ts (xp_sgd p) + xp_sgd p)) as (c1, ig). cbn in Es, Em.
+  cbv zeta.
+  set (en := if clip then clip_end c rp ts (trunc ts (xp_sgd p) + xp_sgd p) else trunc ts (xp_sgd p) + xp_sgd p).
+  destruct (same_ig_if_needed rep c rp (xp_igd p) ts en) as (Es & Em).
+  destruct (ig_if_needed rep c rp (xp_igd p) ts en) as (c1, ig). cbn in Es, Em.
   split; cbn; [lia|]. intros sg cs H1 H2 Hb. apply in_app_or in H1. destruct H1 as [H1|[<-|[]]].
   - rewrite Es in H1. exists sg, cs. unfold same_entry. auto 10.
   - cbn in H2. apply fresh_shards_id in H2. lia.
@@ -175,7 +177,7 @@ Proof.
   destruct (fold_left _ _ _) as (shs, ixs). cbn in G. intros x Hx. cbn in *. auto.
 Qed.
 
-Lemma NodeAgree_xstep repP w e : XInv (x_cat w) -> NodeAgree w -> NodeAgree (fst (xstep true repP w e)).
+Lemma NodeAgree_xstep repP clip w e : XInv (x_cat w) -> NodeAgree w -> NodeAgree (fst (xstep true repP clip w e)).
 Proof.
   intros I A. destruct e; cbn [xstep fst].
   - apply NodeAgree_cat; [auto|apply Back_create_sg].
@@ -189,12 +191,12 @@ Proof.
   - apply NodeAgree_restart; auto.
 Qed.
 
-Lemma NodeAgree_xrun repP es : forall w, XInv (x_cat w) -> NodeAgree w -> NodeAgree (fst (xrun true repP w es)).
+Lemma NodeAgree_xrun repP clip es : forall w, XInv (x_cat w) -> NodeAgree w -> NodeAgree (fst (xrun true repP clip w es)).
 Proof.
   induction es as [|e r IH]; cbn; [auto|]. intros w I A.
-  pose proof (XInv_xstep repP w e I) as I1. pose proof (NodeAgree_xstep repP w e I A) as A1.
-  destruct (xstep true repP w e) as (w1, l1). cbn in I1, A1.
-  specialize (IH w1 I1 A1). destruct (xrun true repP w1 r) as (w2, l2). cbn in *. auto.
+  pose proof (XInv_xstep repP clip w e I) as I1. pose proof (NodeAgree_xstep repP clip w e I A) as A1.
+  destruct (xstep true repP clip w e) as (w1, l1). cbn in I1, A1.
+  specialize (IH w1 I1 A1). destruct (xrun true repP clip w1 r) as (w2, l2). cbn in *. auto.
 Qed.
 
 Lemma NodeAgree_init ps n : NodeAgree (xworld0 ps n).
